@@ -2,7 +2,8 @@
 with: rendering to NSL text, rendering to the typed-core S-expression the Lean model consumes
 (casts/resolution made explicit by the language rules), and the harness's own reference
 interpreter of the C-like source semantics (the independent oracle of C01/C03/C04/C15)."""
-import struct, math
+import struct, math, sys
+sys.set_int_max_str_digits(0)       # out-of-domain runs can produce integers with 10^5 digits; they are only compared, never judged
 
 # ------------------------------------------------------------------ types
 
